@@ -130,6 +130,24 @@ def aliases_of(fa: C.FuncAST) -> Canon:
     """Canon with the reference / pointer aliases of the whole function (flow-insensitive)."""
     cn = Canon()
     seen = set()
+    declared: Dict[str, int] = {}
+    for _, nm in fa.params:
+        if nm:
+            declared[nm] = declared.get(nm, 0) + 1
+    for n in fa.body.walk():
+        if isinstance(n, C.Declarator) and n.bindings is None:
+            declared[n.name] = declared.get(n.name, 0) + 1
+        elif isinstance(n, C.Declarator):
+            for b in n.bindings:
+                declared[b] = declared.get(b, 0) + 1
+        elif isinstance(n, C.RangeFor):
+            for b in n.names:
+                declared[b] = declared.get(b, 0) + 1
+        elif isinstance(n, C.Lambda):
+            for _, nm in n.params:
+                if nm:
+                    declared[nm] = declared.get(nm, 0) + 1
+    ambiguous = {k for k, v in declared.items() if v > 1}
     for n in fa.body.walk():
         if isinstance(n, C.Decl):
             for d in n.decls:
@@ -137,9 +155,15 @@ def aliases_of(fa: C.FuncAST) -> Canon:
                     init = d.init
                     if isinstance(init, C.Init) and init.type is None and len(init.elems) == 1:
                         init = init.elems[0]
+                    if d.name in ambiguous:
+                        # same name declared more than once in the function (shadowing / sibling scopes): keep the alias only
+                        # when every declaration binds the same target
+                        others = [x for x in fa.body.walk() if isinstance(x, C.Declarator) and x.name == d.name and x is not d]
+                        same = all((x.ref or x.ptr) and x.init is not None and cn(x.init) == cn(init) for x in others) and \
+                            declared[d.name] == len(others) + 1
+                        if not same:
+                            continue
                     if d.name in seen:
-                        if cn.aliases.get(d.name) != cn(init):
-                            cn.aliases.pop(d.name, None)
                         continue
                     seen.add(d.name)
                     cn.aliases[d.name] = cn(init)
@@ -293,8 +317,14 @@ def require_nodes(run: Run, fl: Flow, pred, what: str, floor: int = 1) -> List[i
 
 def k2_precede(run: Run, rule: str, fl: Flow, a, b, desc: str, a_floor: int = 1, b_floor: int = 1) -> None:
     """Every path from entry to a `b` node passes an `a` node."""
-    require_nodes(run, fl, a, f"{rule} (A: {desc})", a_floor)
     require_nodes(run, fl, b, f"{rule} (B: {desc})", b_floor)
+    if not fl.nodes_of(a):
+        # the guarded event exists but the required earlier event does not occur at all in this function
+        qual = fl.cfg.fa.fd.qual if fl.cfg.fa.fd else "?"
+        run.count(1, rule)
+        run.finding(rule, f"{qual}:precede:{desc}"[:200], f"{desc}: the required earlier event does not occur in {qual}",
+                    loc=fl.cfg.describe(fl.nodes_of(b)[0]))
+        return
     w = fl.must_precede(a, b)
     run.count(1, rule)
     qual = fl.cfg.fa.fd.qual if fl.cfg.fa.fd else "?"
@@ -314,7 +344,12 @@ def k2_follow(run: Run, rule: str, fl: Flow, a, b, desc: str, exits: str = "norm
 
     after: 'any' (all successors of a), 'completed' (a returned normally), 'thrown' (a threw)."""
     require_nodes(run, fl, a, f"{rule} (A: {desc})", a_floor)
-    require_nodes(run, fl, b, f"{rule} (B: {desc})", b_floor)
+    if not fl.nodes_of(b):
+        qual = fl.cfg.fa.fd.qual if fl.cfg.fa.fd else "?"
+        run.count(1, rule)
+        run.finding(rule, f"{qual}:follow[{exits}]:{desc}"[:200], f"{desc}: the required later event does not occur in {qual}",
+                    loc=fl.cfg.describe(fl.nodes_of(a)[0]))
+        return
     fe = None
     if after == "completed":
         fe = lambda lab: lab != "eh"
